@@ -16,6 +16,7 @@ struct vp_png_model {
   int packswap, invert;
   int cursor;
   int create_fails;
+  int sig_mismatch;
   unsigned char rows[VP_PNG_MAXROWS][VP_PNG_MAXBYTES];
 } vp_png;
 static jmp_buf vp_png_jmp;
@@ -30,8 +31,7 @@ static unsigned char vp_png_swapbits(unsigned char b) {
 }
 
 int png_sig_cmp(png_const_bytep sig, size_t start, size_t num_to_check) {
-  int r;
-  return r;
+  return vp_png.sig_mismatch;
 }
 png_structp png_create_read_struct(png_const_charp v, png_voidp e, png_error_ptr ef, png_error_ptr wf) {
   vp_png.cursor = 0, vp_png.packswap = 0, vp_png.invert = 0;
@@ -58,6 +58,9 @@ void png_set_invert_mono(png_structrp p) { vp_png.invert = 1; }
 void png_read_row(png_structrp p, png_bytep row, png_bytep display_row) {
   unsigned n = vp_png_rowbytes();
   __CPROVER_assert(vp_png.cursor < VP_PNG_MAXROWS && n <= VP_PNG_MAXBYTES, "harness envelope: PNG model large enough");
+  /* the obligation on the caller: its row buffer holds rowbytes bytes (checked once; the model itself never writes out of bounds) */
+  __CPROVER_assert(__CPROVER_w_ok(row, n), "png_read_row: the caller's row buffer holds rowbytes = ceil(width*depth*channels/8) bytes");
+  __CPROVER_assume(__CPROVER_w_ok(row, n));
   for (unsigned k = 0; k < VP_PNG_MAXBYTES; ++k)
     if (k < n) {
       unsigned char b = vp_png.rows[vp_png.cursor][k];
@@ -81,6 +84,8 @@ void png_write_info(png_structrp p, png_const_inforp i) {}
 void png_write_row(png_structrp p, png_const_bytep row) {
   unsigned n = vp_png_rowbytes();
   __CPROVER_assert(vp_png.cursor < VP_PNG_MAXROWS && n <= VP_PNG_MAXBYTES, "harness envelope: PNG model large enough");
+  __CPROVER_assert(__CPROVER_r_ok(row, n), "png_write_row: the caller's row buffer holds rowbytes bytes");
+  __CPROVER_assume(__CPROVER_r_ok(row, n));
   for (unsigned k = 0; k < VP_PNG_MAXBYTES; ++k)
     if (k < n) {
       unsigned char b = row[k]; /* libpng reads rowbytes bytes from the caller's buffer */
